@@ -13,7 +13,7 @@ mod wire;
 // ---------------------------------------------------------------------------------------------
 // numbers <-> values
 // ---------------------------------------------------------------------------------------------
-pub trait Num: Sized {
+pub trait Num: Sized + Clone + Copy + PartialEq + std::fmt::Debug {
     fn n() -> usize;
     fn name() -> String;
     fn of(a: &[u64]) -> Self;
